@@ -158,9 +158,11 @@ pub struct Case<'a> {
     pub schema: &'a Arc<Schema>,
     pub value: &'a Fv,
     /// how the value was produced ("valid#3", "swap@[..]<-alien4", "budget:..")
-    pub desc: &'a str,
+    pub desc: &'a dyn Fn() -> String,
     /// shape class of the mutation for the signature (mutation kind + alien variant)
-    pub mutation_kind: &'a str,
+    pub mutation_kind: &'a dyn Fn() -> String,
+    /// true for mutated values (samples are drawn from accepted mutants)
+    pub mutated: bool,
     /// replay recipe for values too large to write out
     pub recipe: Option<serde_json::Value>,
 }
@@ -177,7 +179,7 @@ fn replay_of(case: &Case, entry: Entry) -> serde_json::Value {
         "type_debug": format!("{:?}", case.ft),
         "value": value,
         "value_debug": short(case.value),
-        "how": case.desc,
+        "how": (case.desc)(),
     })
 }
 
@@ -261,7 +263,7 @@ pub fn run_case(case: &Case, entry: Entry, t: &mut Tally) {
                 entry.name(),
                 ft,
                 short(case.value),
-                case.desc,
+                (case.desc)(),
                 detail
             ),
             replay: replay_of(case, entry),
@@ -289,7 +291,7 @@ pub fn run_case(case: &Case, entry: Entry, t: &mut Tally) {
                 .cloned()
                 .or_else(|| p.downcast_ref::<&str>().map(|s| s.to_string()))
                 .unwrap_or_else(|| "panic".into());
-            fail(t, "panic", format!("{}|{}", skeleton(ft), case.mutation_kind), format!("panicked: {msg}"));
+            fail(t, "panic", format!("{}|{}", skeleton(ft), (case.mutation_kind)()), format!("panicked: {msg}"));
         }
         Ok(Err(_why)) => {
             t.rejected += 1;
@@ -307,7 +309,7 @@ pub fn run_case(case: &Case, entry: Entry, t: &mut Tally) {
                 fail(
                     t,
                     "invalid-accepted",
-                    format!("{}|{}", skeleton(ft), case.mutation_kind),
+                    format!("{}|{}", skeleton(ft), (case.mutation_kind)()),
                     "the model says this value violates the declared type / nullability / key set / arity / budget, but the write was accepted".into(),
                 );
                 return;
@@ -326,7 +328,7 @@ pub fn run_case(case: &Case, entry: Entry, t: &mut Tally) {
                     fail(
                         t,
                         "accepted-unreadable",
-                        format!("{}|{}", skeleton(ft), case.mutation_kind),
+                        format!("{}|{}", skeleton(ft), (case.mutation_kind)()),
                         format!("accepted at write time but the stored form is rejected on read: {why}"),
                     );
                     return;
@@ -360,12 +362,12 @@ pub fn run_case(case: &Case, entry: Entry, t: &mut Tally) {
                     Err(e) => fail(t, "typed-fails", skeleton(ft), format!("try_into fails: {e}")),
                 }
             }
-            if t.samples.len() < 2 && class == Class::Valid && !matches!(case.value, Fv::Null) && case.desc.contains("swap") {
+            if t.samples.len() < 2 && class == Class::Valid && !matches!(case.value, Fv::Null) && case.mutated {
                 t.samples.push(json!({
                     "entry": entry.name(),
                     "type": format!("{ft:?}"),
                     "offered": short(case.value),
-                    "how": case.desc,
+                    "how": (case.desc)(),
                     "read_back": short(got),
                 }));
             }
